@@ -11,10 +11,83 @@ def conn_events():
     return ["disconnect", "lost(None)", "lost(exc)", "lost(exc)+made(new)"]
 
 
-def send_vs_event(budget):
+class FakeSock:
+    """Socket object under the real TCPTransport: what CPython's socket / select do on a socket
+    that another thread has closed (EBADF from sendall; select() refuses the -1 descriptor with
+    ValueError)."""
+
+    __symex_native__ = True
+    __symex_opaque__ = True
+
+    def __init__(self, name="sock"):
+        self.name = name
+        self.written = []
+        self.closed = False
+        self.fail_flag = None
+        self.w = None
+
+    def setblocking(self, flag):
+        pass
+
+    def fileno(self):
+        return -1 if self.closed else 7
+
+    def sendall(self, data):
+        from symex.core import prog
+        if self.closed:
+            raise prog(OSError(9, "Bad file descriptor"))
+        if self.fail_flag is not None and self.w.is_true(self.fail_flag):
+            raise prog(OSError("send failed"))
+        self.written.append((data, self.closed))
+
+    def recv(self, n):
+        from symex.core import prog
+        if self.closed:
+            raise prog(OSError(9, "Bad file descriptor"))
+        return b""
+
+    def close(self):
+        self.closed = True
+
+    def __repr__(self):
+        return f"<FakeSock {self.name}>"
+
+
+def fake_select(a, k):
+    from symex.core import prog
+    for group in a[:3]:
+        for s in group:
+            if s.fileno() < 0:
+                raise prog(ValueError("file descriptor cannot be a negative integer (-1)"))
+    return ([], list(a[1]), [])
+
+
+def tcp_link(w, sc, proto, name):
+    """The threaded TCP gateway's real connection object (TCPTransport.write / ReaderThread.close
+    from source) over a fake socket; its lock is a scheduler lock, the reader thread itself is
+    not running (its join is a no-op)."""
+    from mysensors import gateway_tcp
+    sock = FakeSock(name)
+
+    def check_conn():
+        return None
+    check_conn.__symex_native__ = True
+    link = w.new(gateway_tcp.TCPTransport, sock, C.Factory(proto), check_conn)
+    link._lock = SchedLock(sc)
+
+    def join(timeout=None):
+        return None
+    join.__symex_native__ = True
+    link.join = join
+    return link, sock
+
+
+def send_vs_event(budget, link_kind="serial"):
     def fn(w):
+        import select as _select
         which = w.pick(conn_events(), "event")
         env = C.make_env(w)
+        env.add(_select.select, fake_select, "select.select")
         with env.installed():
             g = C.make_gateway(w, "2.2")
             gw = g.gw
@@ -31,7 +104,13 @@ def send_vs_event(budget):
             new_conn = C.FakeConn("new")
             sc = Sched(w, budget)
             tr._lock = SchedLock(sc)
-            w.info = {"event": which, "budget": budget}
+            if link_kind == "tcp":
+                flag = conn.fail_flag
+                link, conn = tcp_link(w, sc, proto, "sock")
+                conn.fail_flag, conn.w = flag, w
+                proto.transport = link
+                new_conn, new_sock = tcp_link(w, sc, proto, "new")
+            w.info = {"event": which, "budget": budget, "link": link_kind}
             t1 = sc.spawn("sender", lambda call: call(tr.send, LINE))
             if which == "disconnect":
                 t2 = sc.spawn("event", lambda call: call(tr.disconnect))
@@ -50,7 +129,8 @@ def send_vs_event(budget):
                 w.escaped(t1.exc, f"send raised into the pump during {which}")
             if t2.exc is not None:
                 w.escaped(t2.exc, f"{which} raised")
-            writes = list(conn.written) + list(new_conn.written)
+            writes = list(conn.written) + list((new_sock if link_kind == "tcp" else
+                                                new_conn).written)
             full = [x for x in writes]
             w.check(len(full) <= 1, f"command written twice during {which}")
             for data, closed in writes:
@@ -102,6 +182,116 @@ def producers_vs_pump(budget):
     return fn
 
 
+class ThreadStub:
+    """threading.Thread whose target runs as a modelled thread of the scheduler."""
+
+    __symex_native__ = True
+    __symex_opaque__ = True
+
+    def __init__(self, sc, spawned, target, args):
+        self.sc, self.spawned, self.target, self.args = sc, spawned, target, tuple(args)
+        self.daemon = False
+        self.t = None
+
+    def start(self):
+        name = getattr(self.target, "__name__", "thread")
+        target, args = self.target, self.args
+        self.t = self.sc.spawn(f"{name}#{len(self.spawned)}", lambda call: call(target, *args))
+        self.spawned.append(self.t)
+
+    def join(self, timeout=None):
+        t = self.t
+        if t is not None:
+            self.sc.wait_until(lambda: t.done, "join")
+
+    def is_alive(self):
+        return self.t is not None and not self.t.done
+
+
+def pump_lifecycle(budget, transports):
+    """The real SyncTasks.start() / _poll_queue() / stop() with the pump as a modelled thread:
+    two producers queue commands while the controller starts the gateway, stops it, and (as a
+    controller that reconnects does) starts and stops it again.  Whatever is sent is sent at most
+    once and in queue order, nothing raises in any thread, and after the final stop() every pump
+    thread has ended."""
+    def fn(w):
+        import threading as _threading
+        import time as _time
+        transport = w.pick(transports, "transport")
+        restart = w.flag("stop_and_start_again")
+        env = C.make_env(w)
+        sc = Sched(w, budget, atomic=("mysensors.message",))
+        spawned = []
+        env.add(_threading.Thread, lambda a, k: ThreadStub(sc, spawned, k.get("target"),
+                                                           k.get("args", ())), "threading.Thread")
+        holder = {}
+
+        def idle(a, k):
+            tasks = holder["tasks"]
+            sc.wait_until(lambda: len(tasks.queue) > 0 or tasks._stop_event.is_set(), "idle")
+        env.add(_time.sleep, idle, "time.sleep")
+        with env.installed():
+            g = C.make_gateway(w, "2.2", "sync", transport)
+            tasks = holder["tasks"] = g.gw.tasks
+            if transport == "serial":
+                tasks.transport._lock = SchedLock(sc)
+            jobs = {"A": ["A1\n", "A2\n"], "B": ["B1\n"]}
+            if transport == "mqtt":
+                jobs = {"A": ["1;1;1;0;2;1\n", "1;1;1;0;2;2\n"], "B": ["2;1;1;0;2;3\n"]}
+            state = {"phase": 0}
+
+            def controller(call):
+                call(tasks.start)
+                state["phase"] = 1
+                sc.wait_until(lambda: state.get("A") and state.get("B"), "producers")
+                call(tasks.stop)
+                if restart:
+                    call(tasks.start)
+                    for j in jobs["A"]:
+                        call(tasks.add_job, str, j.replace("1\n", "7\n").replace("2\n", "8\n"))
+                    # the controller lets the commands go out (if a pump is there to send them)
+                    sc.wait_until(lambda: len(tasks.queue) == 0 or
+                                  all(t.done for t in spawned), "drained")
+                    call(tasks.stop)
+
+            def producer(name):
+                def body(call):
+                    for j in jobs[name]:
+                        call(tasks.add_job, str, j)
+                    state[name] = True
+                return body
+            main = [sc.spawn("controller", controller), sc.spawn("A", producer("A")),
+                    sc.spawn("B", producer("B"))]
+            sc.run()
+            w.info = {"budget": budget, "transport": transport, "restart": restart,
+                      "schedule": list(sc.trace)}
+            for t in main + spawned:
+                if t.exc is not None:
+                    w.escaped(t.exc, f"thread {t.name.split('#')[0]} raised")
+            w.check(all(t.done for t in spawned), "a pump thread is still running after stop()")
+            if transport == "serial":
+                sent = [C._decode_written(d) for d, closed in g.conn.written]
+            else:
+                sent = [f"{t_.strip('/').split('/')[0]};{p_}" for (t_, p_, q_, r_) in g.pubsub.published]
+                jobs = {k: [f"{j.split(';')[0]};{j.strip().split(';')[5]}" for j in v]
+                        for k, v in jobs.items()}
+            allj = jobs["A"] + jobs["B"]
+            first = [x for x in sent if x in allj]
+            w.check(len(first) == len(set(first)), "a queued command was sent more than once")
+            if jobs["A"][0] in first and jobs["A"][1] in first:
+                w.check(first.index(jobs["A"][0]) < first.index(jobs["A"][1]),
+                        "commands of one producer were sent out of queue order")
+            w.check(not (jobs["A"][1] in first and jobs["A"][0] not in first),
+                    "a later command was sent although an earlier one of the same producer "
+                    "was not")
+            later = [x for x in sent if x not in allj]
+            w.check(len(later) == len(set(later)), "a queued command was sent more than once")
+            w.check(later == sorted(later), "commands queued after the restart were sent out of "
+                                            "queue order")
+            w.goal("restarted" if restart else "stopped")
+    return fn
+
+
 def build(tier):
     q = tier == "quick"
     b = 2 if q else 3
@@ -111,6 +301,21 @@ def build(tier):
                  "of repository code", "events": conn_events(), "write_may_fail": "symbolic"},
                 goals=conn_events() + ["written", "dropped"],
                 doc="SyncTransport.send || connection lost / disconnect / reconnect"),
+        Harness("send-vs-event-tcp", send_vs_event(b, "tcp"),
+                {"mode": "reexec", "preemption_budget": b, "link": "real TCPTransport.write / "
+                 "ReaderThread.close over a fake socket (closed socket: sendall -> EBADF, "
+                 "select -> ValueError)", "events": conn_events(), "write_may_fail": "symbolic"},
+                goals=conn_events() + ["written", "dropped"],
+                doc="SyncTransport.send through the threaded TCP link || loss / disconnect"),
+        Harness("pump-lifecycle", pump_lifecycle(b - 1, ["mqtt"] if q else ["mqtt", "serial"]),
+                {"mode": "reexec", "preemption_budget": b - 1, "threads": "controller (start, stop, "
+                 "optionally start + 2 commands + stop), 2 producers (2 + 1 commands), the real "
+                 "_poll_queue pump(s) and connect thread(s)", "idle_polling": "abstracted to a "
+                 "wait for 'queue not empty or stop requested'",
+                 "transports": ["mqtt"] if q else ["mqtt", "serial"],
+                 "atomic": "functions of mysensors.message (thread-local data only)"},
+                goals=["stopped", "restarted"],
+                doc="real SyncTasks.start/_poll_queue/stop as modelled threads"),
         Harness("producers-vs-pump", producers_vs_pump(b),
                 {"mode": "reexec", "preemption_budget": b, "producers": 2, "jobs": 3},
                 goals=["pumped"], doc="two producers calling add_job || the pump loop body"),
